@@ -204,7 +204,16 @@ def gen_pvs(rng, doctype: str = "", lead: str = ""):
     def dev(tag):
         name = fname(rng, ".hdd" if tag == "Hdd" else ".iso")
         (want if tag == "Hdd" else never).append(name)
-        return f"<{tag} dyn_lists=\"\"><Index>{rng.randrange(9)}</Index><Enabled>1</Enabled><SystemName>{escape(name)}</SystemName><UserFriendlyName>{escape(name)}</UserFriendlyName></{tag}>"
+        nested = ""
+        if tag == "Hdd" and rng.random() < 0.35:
+            # Boot Camp style: the partitions of a physical disk, each with a SystemName of its own (not a backing file)
+            parts = [f"/dev/disk{rng.randrange(3)}s{j + 1}" for j in range(rng.randrange(1, 4))]
+            never.extend(parts)
+            nested = "".join(f"<Partition><SystemName>{p}</SystemName><InUse>{rng.randrange(2)}</InUse></Partition>" for p in parts)
+            if rng.random() < 0.5:
+                nested = f"<Partitions>{nested}</Partitions>"
+        pre, post = (nested, "") if rng.random() < 0.5 else ("", nested)
+        return f"<{tag} dyn_lists=\"\"><Index>{rng.randrange(9)}</Index><Enabled>1</Enabled>{pre}<SystemName>{escape(name)}</SystemName><UserFriendlyName>{escape(name)}</UserFriendlyName>{post}</{tag}>"
 
     devs = [dev(rng.choice(["Hdd", "Hdd", "CdRom", "Fdd", "NetworkAdapter", "Sound", "USB", "Serial"])) for _ in range(rng.choice([0, 1, 3, 7]))]
     hw = "".join(devs)
@@ -232,6 +241,8 @@ def doctypes(root: str, canary_uri: str, http_uri: str = "http://127.0.0.1:9/x")
         "ext-dtd-file": f'<!DOCTYPE {root} SYSTEM "{canary_uri}">',
         "ext-dtd-http": f'<!DOCTYPE {root} SYSTEM "{http_uri}">',
         "doctype-only": f"<!DOCTYPE {root}>",
+        "doctype-empty-subset": f"<!DOCTYPE {root} []>",
+        "dtd-elements-only": f'<!DOCTYPE {root} [<!ELEMENT {root} ANY><!ATTLIST {root} note CDATA #IMPLIED><!NOTATION n SYSTEM "x"><!-- no entities -->]>',
         "none": "",
     }
 
